@@ -197,7 +197,9 @@ func c02Gen(r *rand.Rand, n int, tier string) []string {
 			}
 			return fmt.Sprintf("%s,-,0,-,%d,0,-,-+%s,-,0,%s,%d,0,-,-", hxs("tombstone"), tick(), hxs("nodeType"), hxs(t), tick())
 		}
-		tomb := func(v int) string { return fmt.Sprintf("%s,-,%s,-,%d,0,-,-", hxs("tombstone"), valStr(float64(v)), tick()) }
+		tomb := func(v int) string {
+			return fmt.Sprintf("%s,-,%s,-,%d,0,-,-", hxs("tombstone"), valStr(float64(v)), tick())
+		}
 		pt := func() string {
 			return fmt.Sprintf("%s,%s,%s,%s,%d,%d,-,-", hxs(pick(r, []string{"value", "description", "level"})), hxs(pick(r, []string{"", "0", "1"})),
 				valStr(float64(r.Intn(9))), hxs(pick(r, []string{"", "x", "y"})), tick(), pick(r, []int{0, 0, 0, 0, 0, 1, 2}))
